@@ -142,7 +142,7 @@ fn client_source(g: &mut Rng, names: &[String], via: &str) -> String {
     let objs: Vec<String> = names.iter().filter(|n| matches!(n.as_str(), "visa" | "visb" | "visc" | "visd" | "guarded" | "checked" | "nested" | "comp" | "viasuper" | "halfbad" | "outer" | "selfdep" | "plusdeep" | "plussub" | "plusobj")).cloned().collect();
     let vis: Vec<String> = objs.iter().filter(|n| n.starts_with("vis")).cloned().collect();
     let fo = |g: &mut Rng| if !vis.is_empty() && g.chance(3, 5) { g.pick(&vis).clone() } else if objs.is_empty() { "nested".to_string() } else { g.pick(&objs).clone() };
-    match g.below(46) {
+    match g.below(52) {
         0 => format!("{l}.{}", f(g)),
         1 => format!("local l = {l}; [l.{}, l.{}]", f(g), f(g)),
         2 => format!("local l = {l}; {{ a: l.{}, b: l.{} }}", f(g), f(g)),
@@ -188,6 +188,29 @@ fn client_source(g: &mut Rng, names: &[String], via: &str) -> String {
         42 => "{ upstream_port: 1, upstream_host: \"h\", upstream_hostname: 2, upstream_: 0, configuration_a: 3 }".to_string(),
         43 => format!("local l = {l}; [std.objectFields({{ upstream_port: 1 }} + {{ upstream_host: 2 }}), std.objectFields(l.longn), l.longn]"),
         44 => "std.manifestJsonMinified(std.parseJson(\"{\\\"upstream_port\\\": 1, \\\"upstream_host\\\": 2, \\\"configuration_a\\\": 0}\"))".to_string(),
+        // a GENERATED client over the shared values: the library's fields are bound to typed variables and the program
+        // generator (about 100 builtins, comprehensions, inheritance, functions) computes with them
+        45..=50 => {
+            let table: &[(&str, Ty)] = &[
+                ("shallow", Ty::Num), ("deep", Ty::Num), ("fold", Ty::Num), ("hidden", Ty::Num), ("nat", Ty::Num),
+                ("arr", Ty::Arr(Box::new(Ty::Any))), ("deeparr", Ty::Arr(Box::new(Ty::Any))), ("strs", Ty::Arr(Box::new(Ty::Str))), ("sorted", Ty::Arr(Box::new(Ty::Num))),
+                ("tostr", Ty::Str), ("manif", Ty::Str), ("substr", Ty::Str), ("cmp", Ty::Bool),
+                ("nested", Ty::Obj), ("guarded", Ty::Obj), ("checked", Ty::Obj), ("comp", Ty::Obj), ("viasuper", Ty::Obj), ("visa", Ty::Obj), ("visb", Ty::Obj),
+                ("visc", Ty::Obj), ("visd", Ty::Obj), ("selfdep", Ty::Obj), ("plusdeep", Ty::Obj), ("plusobj", Ty::Obj), ("longn", Ty::Obj), ("sub", Ty::Obj), ("lazyobj", Ty::Obj),
+                ("lazy", Ty::Any), ("boom", Ty::Any),
+            ];
+            let vars: Vec<(String, Ty)> = table.iter().filter(|(n, _)| names.iter().any(|x| x == n)).map(|(n, t)| (format!("v_{n}"), t.clone())).collect();
+            let binds: Vec<String> = vars.iter().map(|(v, _)| format!("{v} = l.{}", &v[2..])).collect();
+            let mut cfg = GenCfg::draw(g);
+            cfg.size = *g.pick(&[12, 25, 40]);
+            cfg.big_heap = false;
+            cfg.deep = None;
+            cfg.effects = false;
+            cfg.natives = false;
+            let want = match g.below(5) { 0 => Ty::Num, 1 => Ty::Str, 2 => Ty::Obj, 3 => Ty::Arr(Box::new(Ty::Any)), _ => Ty::Any };
+            let prog = Gen::new(g, cfg).with_vars(vars).program(&want).print();
+            format!("local l = {l};\nlocal {};\n{prog}", binds.join(", "))
+        }
         33 => format!("local l = {l}; [std.objectRemoveKey(l.{a}, \"a\"), std.mergePatch(l.{b}, {{ a: null, k: null }}), l.{a}]", a = if g.chance(1, 2) { "selfdep".to_string() } else { fo(g) }, b = fo(g)),
         34 => format!("local l = {l}; [l.{a} {{ a: 10 }}, l.{b} + {{ a:: 5, xs+: [9] }}, std.objectRemoveKey(l.{a}, \"xs\")]", a = fo(g), b = fo(g)),
         35 => format!("local l = {l}; local o = l.{}; [std.length(o), std.objectFields(o), o]", fo(g)),
@@ -301,6 +324,26 @@ pub fn gen_history_mode(seed: u64, with_faults: bool, session: bool) -> History 
         ops.push(Op::plain(Req::Load("m_patch.jsonnet".into())));
         ops.push(Op::plain(Req::Load("m_fn.jsonnet".into())));
     }
+    // a directed family on NAMES: a source that looks a name up dynamically (index, membership, %(name) formatting) while no
+    // loaded source has mentioned the name, then a source that mentions it and does the same, then the first one again
+    let intern_family = g.chance(1, 5);
+    if intern_family {
+        let a = match g.below(5) {
+            0 => "(\"<%(zo\" + \"rk)s>\") % { other: 1 }",
+            1 => "std.format(\"<%(zo\" + \"rk)05d>\", [7])",
+            2 => "local o = { assert self.n > 0 : \"n\", n: 1 }; [std.objectHas(o, \"zo\" + \"rk\"), \"zo\" + \"rk\" in o]",
+            3 => "local o = (import \"lib.libsonnet\").guarded; o[\"zo\" + \"rk\"]",
+            _ => "std.objectFields(std.parseJson(\"{\\\"zo\" + \"rk\\\": 1, \\\"a\\\": 2}\"))",
+        };
+        let b = match g.below(4) {
+            0 => "(\"<%(zo\" + \"rk)s>\") % { zork: \"hi\" }",
+            1 => "std.format(\"<%(zo\" + \"rk)05d>\", { zork: 42 })",
+            2 => "local o = { zork: 2, assert self.zork > 0 }; [o[\"zo\" + \"rk\"], std.objectHas(o, \"zo\" + \"rk\")]",
+            _ => "{ zork: 1 } + std.parseJson(\"{\\\"zo\" + \"rk\\\": 5}\")",
+        };
+        files.insert("i_a.jsonnet".into(), a.as_bytes().to_vec());
+        files.insert("i_b.jsonnet".into(), b.as_bytes().to_vec());
+    }
     // a second directed family: one function called several times with different CODE arguments, all loaded under the
     // same virtual name <tla:k>; most of them fail inside that code, so each diagnostic quotes its own text
     let tla_family = g.chance(1, 4);
@@ -319,6 +362,15 @@ pub fn gen_history_mode(seed: u64, with_faults: bool, session: bool) -> History 
     let n = 2 + o.usize_below(10);
     for _ in 0..n {
         let h = o.below(16) as u32;
+        if !pending.is_empty() && o.chance(1, 5) {
+            // a source that enters the long-lived state late (names it interns, contexts it registers, come after
+            // earlier requests have run), usually evaluated right away
+            ops.push(Op::plain(Req::Load(pending.pop().unwrap())));
+            if o.chance(2, 3) {
+                ops.push(Op::plain(Req::Eval { thunk: crate::reqs::LAST_THUNK, keep: o.chance(1, 2) }));
+            }
+            continue;
+        }
         let req = match o.below(24) {
             0..=9 => Req::Eval { thunk: h, keep: o.chance(1, 2) },
             10 | 11 => {
@@ -432,6 +484,25 @@ pub fn gen_history_mode(seed: u64, with_faults: bool, session: bool) -> History 
             ops.insert(at.min(ops.len()), Op::plain(r));
             at += 1;
         }
+    }
+    if intern_family {
+        // appended in this order (LAST_THUNK needs no handle arithmetic); other requests may follow
+        let lead = ops.iter().take_while(|op| matches!(op.req, Req::Load(_))).count();
+        let at = lead + o.usize_below(ops.len() - lead + 1);
+        let seq = vec![
+            Req::Load("i_a.jsonnet".into()),
+            Req::Eval { thunk: crate::reqs::LAST_THUNK, keep: false },
+            Req::Load("i_b.jsonnet".into()),
+            Req::Eval { thunk: crate::reqs::LAST_THUNK, keep: o.chance(1, 2) },
+        ];
+        // the family's loads must stay adjacent to their evaluations: insert as one block
+        for (k, r) in seq.into_iter().enumerate() {
+            ops.insert(at + k, Op::plain(r));
+        }
+        // ... and the first source once more, now that the name is known (its thunk is the one produced 2 loads ago;
+        // a plain re-load gives the same comparison without handle arithmetic)
+        ops.insert(at + 4, Op::plain(Req::Load("i_a.jsonnet".into())));
+        ops.insert(at + 5, Op::plain(Req::Eval { thunk: crate::reqs::LAST_THUNK, keep: false }));
     }
     let inner_gc = if o.chance(1, 2) { Some(*o.pick(&[10u64, 100, 500])) } else { None };
     History { world: World { files: Arc::new(files), ext }, ops, inner_gc }
